@@ -583,9 +583,11 @@ func ParseList[T any](one func(ParseState) frt.Tuple2[ParseState, T], endPred fu
 	var res []T
 	var rone T
 	for !endPred(ps) {
+		verifRootBoundary(ps, len(res), false)
 		ps, rone = frt.Destr2(one(ps))
 		res = append(res, rone)
 	}
+	verifRootBoundary(ps, len(res), true)
 	return frt.NewTuple2(ps, res)
 }
 
